@@ -1084,13 +1084,14 @@ def generic_option_space(ctx, dfols, seen_sig):
     stats = {"runs": 0, "exceptions": {}, "flags": {}}
     for i in range(n):
         seed = [ctx.seed, 7070, i]
-        prob, kw, d, t = ss.gen_run(dfols, seed, alarm=20, mutate_cfg=mutate_generic)
+        prob, kw, d, t = ss.gen_run(dfols, seed, alarm=20, mutate_cfg=mutate_generic, patient=True)
+        # (gen_run repeats a run that exceeds the 20 s with ss.SLOW_LIMIT before it reports an alarm)
         stats["runs"] += 1
         stats["regulariser_with_required_args"] = stats.get("regulariser_with_required_args", 0) + int(bool(d.get("regu_args")))
         ctx.seen(("c07generic", i))
         sig = what = None
         if isinstance(t.exception, core.Alarm):
-            sig, what = "C07:generic:does-not-terminate", "no termination within 20 s: %s" % (ss.describe(d),)
+            sig, what = "C07:generic:does-not-terminate", "no termination within %d s of CPU time: %s" % (ss.SLOW_LIMIT, ss.describe(d))
         elif t.exception is not None:
             tb = traceback.extract_tb(t.exception.__traceback__)
             site = next(("%s:%s" % (fr.filename.split("/")[-1], fr.name) for fr in reversed(tb) if "/dfols/" in fr.filename), "outside-dfols")
@@ -1112,6 +1113,7 @@ def generic_option_space(ctx, dfols, seen_sig):
         if sig is not None and sig not in seen_sig:
             seen_sig.add(sig)
             ctx.fail(sig, what, {"generic_seed": seed})
+    stats["slow_runs"] = dict(ss.SLOW_STATS)
     ctx.cov["generic_option_space"] = stats
 
 
@@ -1120,7 +1122,7 @@ def replay(payload):
     if rp.get("generic_seed"):
         import solve_suite as ss
         dfols = core.import_dfols()
-        prob, kw, d, t = ss.gen_run(dfols, rp["generic_seed"], alarm=20, mutate_cfg=mutate_generic)
+        prob, kw, d, t = ss.gen_run(dfols, rp["generic_seed"], alarm=ss.SLOW_LIMIT, mutate_cfg=mutate_generic)
         bad = t.exception is not None
         print("replay:", "still raises %r" % (t.exception,) if bad else "property holds on this input now")
         return 1 if bad else 0
